@@ -18,7 +18,7 @@ func newFuncVC(p *Prog, fn *ssa.Function, c *Contract) *FuncVC {
 		edge: map[[2]int]string{}, heapSorts: map[string]Sort{}, tags: map[string]int{}, strConsts: map[string]string{},
 		fnIDs: map[*ssa.Function]int{}, loopHeads: map[*ssa.BasicBlock]int{}, loopBody: map[*ssa.BasicBlock][]*ssa.BasicBlock{},
 		backEdges: map[[2]int]bool{}, trustedUse: map[string]bool{}, unmodelled: map[string]bool{}, logKeys: map[string][]Sort{},
-		escaped: map[*ssa.Alloc]bool{}, params: map[string]Val{}, loopMeasure: map[*ssa.BasicBlock]string{}, sliceOrigins: map[ssa.Value]sliceOrigin{}}
+		escaped: map[*ssa.Alloc]bool{}, params: map[string]Val{}, loopMeasure: map[*ssa.BasicBlock]string{}, sliceOrigins: map[ssa.Value]sliceOrigin{}, ancCache: map[int]map[int]bool{}}
 	fv.Name = strings.TrimPrefix(strings.Replace(fv.Name, p.ModPath+"/", "", 1), "")
 	fv.Name = strings.Replace(fv.Name, p.ModPath+".", "zerolog.", 1)
 	if c != nil {
@@ -125,7 +125,8 @@ func (fv *FuncVC) translate() (err error) {
 	fv.cur = fv.entry
 	fv.curReach = "true"
 	// ghost allocation counter
-	fv.ghostTerm(fv.entry, "alloc", SMath)
+	a0 := fv.ghostTerm(fv.entry, "alloc", SMath)
+	fv.assert(app(">=", a0.S, "0"))
 	// parameters
 	names := fv.paramNames()
 	for i, p := range fn.Params {
@@ -156,10 +157,14 @@ func (fv *FuncVC) translate() (err error) {
 		}
 	}
 	rpo := fv.analyseCFG()
+	fv.inBlocks = true
 	for _, b := range rpo {
 		fv.block(b)
 	}
+	fv.inBlocks = false
 	fv.finishTags()
+	fv.fieldInitObligations()
+	fv.frameObligations()
 	return nil
 }
 
@@ -789,7 +794,15 @@ func (fv *FuncVC) sliceInstr(in *ssa.Slice) {
 		rs := fv.sortOf(in.Type())
 		r := fv.fresh("arrslice", rs)
 		r.Go = in.Type()
-		fv.assert(smtAnd(app("=", fv.arrOf(r), arr.S), app("=", fv.offOf(r), fv.ilit(0)), app("=", fv.lenOf(r), fv.ilit(at.Len())), app("=", fv.capOf(r), fv.ilit(at.Len())), app(">=", fv.baseOf(r), "0")))
+		bref := "0"
+		if _, isAlloc := in.X.(*ssa.Alloc); isAlloc {
+			bref = fv.newRef("arrbase", in.Type()).S // a fresh array: storage nobody else has
+		} else {
+			bref = fv.fresh("arrbase", SMath).S
+			fv.assert(app(">", bref, "0"))
+		}
+		fv.assert(smtAnd(app("=", fv.arrOf(r), arr.S), app("=", fv.offOf(r), fv.ilit(0)), app("=", fv.lenOf(r), fv.ilit(at.Len())), app("=", fv.capOf(r), fv.ilit(at.Len())), app("=", fv.baseOf(r), bref)))
+
 		xt = r
 		capT = fv.ilit(at.Len())
 		fv.warn("slice of array at %s: later writes through the slice are not reflected in the array", fv.P.relPos(in.Pos()))
